@@ -16,6 +16,8 @@
 (*   same_sign   sign differs (angles within 1e-8" of zero excepted)       *)
 (*   valid_hp    an HP value produced has minutes or seconds field >= 60   *)
 (*   source_unchanged  a conversion changed the angle object it was given  *)
+(*   constructed  a DMS / DDM object built from (degree, minute, second,    *)
+(*            sign flag) does not denote that angle                        *)
 (*   rejects     invalid HP accepted / valid HP rejected by hp2dec, HPAngle*)
 (***************************************************************************)
 EXTENDS Angles, Json, IOUtils, TLC
@@ -53,7 +55,10 @@ Step == /\ ~dead /\ l <= Len(T.ev) /\ T.ev[l].a # "Reject"
            IN IF es = {} THEN Report("edge") /\ dead' = TRUE /\ UNCHANGED vars
               ELSE \E e \in es :
                    \E f \in {IF ev.exc # "" THEN "raised"
-                             ELSE FirstFail(<< <<"kind", ev.kind = Kind(e[2])>>,
+                             ELSE FirstFail(<< \* a DMS / DDM start object built from its fields denotes the angle it was built for
+                                               <<"constructed", l > 1 \/ ~T.ctor.on \/
+                                                                (SameAngle(ObsAng(T.ctor), ang) /\ SameSign(ObsAng(T.ctor), ang))>>,
+                                               <<"kind", ev.kind = Kind(e[2])>>,
                                                <<"same_angle", SameAngle(ObsAng(ev), ang)>>,
                                                <<"same_sign", SameSign(ObsAng(ev), ang)>>,
                                                <<"valid_hp", ProducesHP(e) => ValidHPDigits(ev.hp)>>,
